@@ -6,7 +6,7 @@ namespace DW.Driver
 open Lean DW.GenLoad
 open DW.GenDump (PathPart)
 
-private def lArr (j : Json) : Except String (List Json) := do pure (← j.getArr?).toList
+def lArr (j : Json) : Except String (List Json) := do pure (← j.getArr?).toList
 
 private def lPart (j : Json) : Except String PathPart :=
   match j with
@@ -32,10 +32,10 @@ def lInOf (j : Json) : Except String LIn := do
          paths := (← (← lArr ((j.getObjVal? "paths").toOption.getD (Json.arr #[]))).mapM lPath),
          loopOverO := getBoolD j "loopOverO" true, knownKeys := getBoolD j "knownKeys" false }
 
-private def strsJ' (l : List S) : Json := Json.arr (l.map strJ).toArray
+def strsJ' (l : List S) : Json := Json.arr (l.map strJ).toArray
 
 mutual
-private partial def stmtJ : Stmt → List Json
+partial def stmtJ : Stmt → List Json
   | .line parts => [Json.mkObj [("kind", "line"), ("parts", Json.arr (parts.map (fun p =>
       Json.mkObj [("text", strJ p.text), ("reads", strsJ' p.reads), ("writes", strsJ' p.writes)])).toArray)]]
   | .comment _ => []
@@ -52,7 +52,7 @@ private partial def stmtJ : Stmt → List Json
       stmtsJ body ++ (Json.mkObj [("kind", "head"), ("text", strJ ("except ".toList ++ exc ++
         (match asName with | some n => " as ".toList ++ n | none => []) ++ [':'])), ("reads", strsJ' er),
         ("writes", strsJ' (match asName with | some n => [n] | none => []))] :: stmtsJ handler)
-private partial def stmtsJ : List Stmt → List Json
+partial def stmtsJ : List Stmt → List Json
   | [] => []
   | s :: r => stmtJ s ++ stmtsJ r
 end
